@@ -57,7 +57,7 @@ mod kani_c19_wire {
         kani::cover!(done && !err && labels == 2 && inside, "two labels across a pointer");
         kani::cover!(self_ptr, "self pointer");
         assert!(done, "C19.parse_name: terminates");
-        assert!(2 * labels <= n + k, "C19.parse_name: no byte is parsed twice (label count bounded by the input size)");
+        assert!(2 * labels <= n + (if inside { n - start } else { k }), "C19.parse_name: label count bounded by the input size (bytes after the start may be parsed once more through a pointer)");
         if self_ptr { assert!(err && labels == 0, "C19.parse_name: a self pointer is rejected"); }
     }
 
@@ -127,6 +127,8 @@ mod kani_c19_wire {
 #[cfg(kani)]
 mod kani_c19 {
     use super::*;
+    use heapless::Vec as HVec;
+    use std::vec::Vec; // the glob-imported heapless Vec would break the driver's injected playback tests
     use crate::wire::{Ipv4Address, Ipv4Cidr, Ipv4Repr, IpCidr};
 
     const NQ: usize = 2; // query slots
@@ -144,8 +146,8 @@ mod kani_c19 {
         if 0 < bound { f(0); } if 1 < bound { f(1); } if 2 < bound { f(2); } if 3 < bound { f(3); } if 4 < bound { f(4); } if 5 < bound { f(5); }
         assert!(bound <= 6, "harness limit: configuration constants <= 6");
     }
-    fn any_name() -> Vec<u8, DNS_MAX_NAME_SIZE> {
-        let mut v = Vec::new();
+    fn any_name() -> HVec<u8, DNS_MAX_NAME_SIZE> {
+        let mut v = HVec::new();
         let n: usize = kani::any();
         upto6(DNS_MAX_NAME_SIZE, |i| if i < n { v.push(kani::any()).ok(); });
         v
@@ -159,8 +161,8 @@ mod kani_c19 {
         PendingQuery { name: any_name(), type_: any_type(), port: kani::any(), txid: kani::any(), timeout_at: any_opt(any_timer), retransmit_at: any_timer(),
             delay: Duration::from_micros(kani::any()), server_idx: kani::any(), mdns: any_mdns() }
     }
-    fn any_addrs() -> Vec<IpAddress, DNS_MAX_RESULT_COUNT> {
-        let mut v = Vec::new();
+    fn any_addrs() -> HVec<IpAddress, DNS_MAX_RESULT_COUNT> {
+        let mut v = HVec::new();
         let n: usize = kani::any();
         upto6(DNS_MAX_RESULT_COUNT, |i| if i < n { v.push(any_ip()).ok(); });
         v
@@ -173,8 +175,8 @@ mod kani_c19 {
             _ => Some(DnsQuery { state: State::Failure }),
         }
     }
-    fn any_servers() -> Vec<IpAddress, DNS_MAX_SERVER_COUNT> {
-        let mut v = Vec::new();
+    fn any_servers() -> HVec<IpAddress, DNS_MAX_SERVER_COUNT> {
+        let mut v = HVec::new();
         let n: usize = kani::any();
         upto6(DNS_MAX_SERVER_COUNT, |i| if i < n { v.push(any_ip()).ok(); });
         v
@@ -216,21 +218,25 @@ mod kani_c19 {
         }
         r
     }
+    fn same_name(a: &Snap, b: &Snap) -> bool { let mut same = a.name_len == b.name_len; upto6(DNS_MAX_NAME_SIZE, |j| same &= a.name[j] == b.name[j]); same }
+    fn bits(a: IpAddress) -> u32 { match a { IpAddress::Ipv4(x) => x.to_bits() } }
+    fn obits(a: Option<IpAddress>) -> Option<u32> { a.map(bits) }
+    fn same_addrs(a: &Snap, b: &Snap) -> bool { let mut same = true; upto6(DNS_MAX_RESULT_COUNT, |j| same &= obits(a.addrs[j]) == obits(b.addrs[j])); same }
     fn any_index() -> usize { let i: usize = kani::any(); kani::assume(i < NQ); i } // tag: range
 
     // ------------------------------------------------------------------------------------------ accepts
 
     /// accepted datagrams come from port 53 of a configured server, or from the mDNS port; and every such datagram is accepted
-    #[kani::proof] #[kani::unwind(4)]
+    #[kani::proof] #[kani::unwind(6)]
     fn c19_accepts() {
         let s = any_socket(new_slots());
         let src = any_v4();
         let ip = IpRepr::Ipv4(Ipv4Repr { src_addr: src, dst_addr: any_v4(), next_header: IpProtocol::Udp, payload_len: kani::any(), hop_limit: kani::any() });
         let udp = UdpRepr { src_port: kani::any(), dst_port: kani::any() };
         let j: usize = kani::any();
-        let from_server_j = j < s.servers.len() && s.servers[j] == IpAddress::Ipv4(src);
+        let from_server_j = j < s.servers.len() && bits(s.servers[j]) == src.to_bits();
         let mut from_server = false;
-        upto6(DNS_MAX_SERVER_COUNT, |i| if i < s.servers.len() && s.servers[i] == IpAddress::Ipv4(src) { from_server = true; });
+        upto6(DNS_MAX_SERVER_COUNT, |i| if i < s.servers.len() && bits(s.servers[i]) == src.to_bits() { from_server = true; });
         let a = s.accepts(&ip, &udp);
         kani::cover!(a && udp.src_port == 53 && s.servers.len() == DNS_MAX_SERVER_COUNT, "accepted from the last configured server");
         kani::cover!(!a && udp.src_port == 53, "port 53 of a foreign host refused");
@@ -281,23 +287,28 @@ mod kani_c19 {
     fn server_of(d: &DStep, i: usize, idx: usize) -> IpAddress { if d.pre[i].mdns { IpAddress::Ipv4(Ipv4Address::new(224, 0, 0, 251)) } else { d.s.servers[idx] } }
 
     /// dispatch never completes a query, never touches its identity, never touches non-pending slots or slots it did not reach
-    #[kani::proof] #[kani::unwind(4)]
+    #[kani::proof] #[kani::unwind(3)]
     fn c19_dispatch_frame() {
         let d = run_dispatch();
         let i = any_index();
         let (a, b) = (&d.pre[i], &d.post[i]);
         kani::cover!(a.k == K::Pending && b.k == K::Failure, "a query can fail in dispatch");
         kani::cover!(i == 1 && !reached(&d, 1), "second slot starved by the first in this call");
-        if a.k != K::Pending { assert!(b.k == a.k && b.addrs == a.addrs, "C19.dispatch: only pending queries are touched"); }
+        if a.k != K::Pending { assert!(b.k == a.k && same_addrs(a, b), "C19.dispatch: only pending queries are touched"); }
         else {
             assert!(b.k == K::Pending || b.k == K::Failure, "C19.dispatch: a pending query stays pending or fails; it never completes without a response");
-            if b.k == K::Pending { assert!(b.name == a.name && b.name_len == a.name_len && b.ty == a.ty && b.port == a.port && b.txid == a.txid && b.mdns == a.mdns, "C19.dispatch: identity of the query unchanged"); }
+            if b.k == K::Pending {
+                assert!(same_name(a, b), "C19.dispatch: query name unchanged");
+                assert!(b.ty == a.ty, "C19.dispatch: query type unchanged");
+                assert!(b.port == a.port && b.txid == a.txid, "C19.dispatch: port and transaction id unchanged");
+                assert!(b.mdns == a.mdns, "C19.dispatch: mDNS flag unchanged");
+            }
             if !reached(&d, i) { assert!(b.k == K::Pending && b.timeout_at == a.timeout_at && b.retransmit_at == a.retransmit_at && b.delay == a.delay && b.idx == a.idx, "C19.dispatch: unreached slot untouched"); }
         }
     }
 
     /// timeout_at is fixed per server at the first dispatch (+10 s) and does not move until it has passed
-    #[kani::proof] #[kani::unwind(4)]
+    #[kani::proof] #[kani::unwind(3)]
     fn c19_dispatch_timeout_fixed() {
         let d = run_dispatch();
         let i = any_index();
@@ -314,7 +325,7 @@ mod kani_c19 {
     }
 
     /// after the deadline: next server, fresh deadline and back-off; failure after the last server
-    #[kani::proof] #[kani::unwind(4)]
+    #[kani::proof] #[kani::unwind(3)]
     fn c19_dispatch_failover() {
         let d = run_dispatch();
         let i = any_index();
@@ -329,7 +340,7 @@ mod kani_c19 {
                 if b.k == K::Pending {
                     assert!(b.idx == a.idx + 1 && b.idx < n, "C19.dispatch: next server after the deadline");
                     assert!(b.timeout_at == Some(d.now + S10), "C19.dispatch: fresh 10 s deadline for the next server");
-                    if emitted_for(&d, i) { assert!(matches!(&d.sent, Some(m) if m.dst == server_of(&d, i, b.idx)), "C19.dispatch: the query goes to the next server at once"); }
+                    if emitted_for(&d, i) { assert!(matches!(&d.sent, Some(m) if bits(m.dst) == bits(server_of(&d, i, b.idx))), "C19.dispatch: the query goes to the next server at once"); }
                 }
             } else {
                 if a.idx >= n { assert!(b.k == K::Failure, "C19.dispatch: no server left"); }
@@ -339,7 +350,7 @@ mod kani_c19 {
     }
 
     /// a due query is (re)transmitted: right datagram, next transmission strictly later, delay doubling, capped at 10 s
-    #[kani::proof] #[kani::unwind(4)]
+    #[kani::proof] #[kani::unwind(3)]
     fn c19_dispatch_retransmit() {
         let d = run_dispatch();
         let i = any_index();
@@ -366,7 +377,7 @@ mod kani_c19 {
     }
 
     /// the emitted datagram is the query: to the current server's port 53 (mDNS group:5353), from the query's port, txid, one question = (name, type)
-    #[kani::proof] #[kani::unwind(4)]
+    #[kani::proof] #[kani::unwind(3)]
     fn c19_dispatch_datagram() {
         let d = run_dispatch();
         let i = any_index();
@@ -375,9 +386,9 @@ mod kani_c19 {
         kani::cover!(emitted_for(&d, i) && !a.mdns && b.idx == 1, "query to the second server");
         if let (true, Some(m)) = (emitted_for(&d, i), &d.sent) {
             assert!(b.k == K::Pending, "C19.dispatch: sender stays pending");
-            assert!(m.dst == server_of(&d, i, b.idx) && !m.dst.is_unspecified(), "C19.dispatch: sent to the current server");
+            assert!(bits(m.dst) == bits(server_of(&d, i, b.idx)) && !m.dst.is_unspecified(), "C19.dispatch: sent to the current server");
             assert!(m.dport == (if a.mdns { 5353 } else { 53 }) && m.sport == a.port, "C19.dispatch: ports");
-            assert!(d.src.is_some() && matches!(m.src, IpAddress::Ipv4(x) if Some(x) == d.src), "C19.dispatch: source is an interface address");
+            assert!(d.src.is_some() && Some(bits(m.src)) == d.src.map(|x| x.to_bits()), "C19.dispatch: source is an interface address");
             assert!(m.txid == a.txid && m.qd == 1 && m.an == 0 && m.flags_rd_only && m.opcode_query, "C19.dispatch: header");
             assert!(m.plen == 12 + a.name_len + 4 && m.total == 8 + m.plen, "C19.dispatch: length = header + name + type + class");
             if m.gk < a.name_len { assert!(m.gbyte == a.name[m.gk], "C19.dispatch: question name is the query name"); }
@@ -387,7 +398,7 @@ mod kani_c19 {
     }
 
     /// J preserved
-    #[kani::proof] #[kani::unwind(4)]
+    #[kani::proof] #[kani::unwind(3)]
     fn c19_dispatch_inv() {
         let d = run_dispatch();
         kani::cover!(d.sent.is_some(), "something sent");
@@ -418,14 +429,14 @@ mod kani_c19 {
             if let Some(t) = a.timeout_at { assert!(r <= PollAt::Time(t), "C19.poll_at: not after the server deadline of any pending query"); }
         }
     }
-    #[kani::proof] #[kani::unwind(4)] fn c19_poll_at_retransmit() { run_poll_at(false, false) }
-    #[kani::proof] #[kani::unwind(4)] fn c19_poll_at_timeout() { run_poll_at(false, true) }
-    #[kani::proof] #[kani::unwind(4)] fn c19_poll_at_timeout_xk() { run_poll_at(true, true) }
+    #[kani::proof] #[kani::unwind(3)] fn c19_poll_at_retransmit() { run_poll_at(false, false) }
+    #[kani::proof] #[kani::unwind(3)] fn c19_poll_at_timeout() { run_poll_at(false, true) }
+    #[kani::proof] #[kani::unwind(3)] fn c19_poll_at_timeout_xk() { run_poll_at(true, true) }
 
     // ------------------------------------------------------------------------------------------ get_query_result
 
     /// results are handed out only for completed queries, exactly as stored; finished slots are freed, pending ones kept
-    #[kani::proof] #[kani::unwind(4)]
+    #[kani::proof] #[kani::unwind(3)]
     fn c19_get_query_result() {
         let mut s = any_socket(new_slots());
         let i = any_index();
@@ -436,10 +447,10 @@ mod kani_c19 {
         let b = snap(&s, i);
         kani::cover!(matches!(&r, Ok(v) if !v.is_empty()), "addresses returned");
         match r {
-            Ok(v) => assert!(a.k == K::Completed && { let mut same = true; upto6(DNS_MAX_RESULT_COUNT, |j| same &= v.get(j).copied() == a.addrs[j]); same } && b.k == K::Free, "C19.result: addresses only from a completed query"),
-            Err(GetQueryResultError::Pending) => assert!(a.k == K::Pending && b.k == K::Pending && b.name == a.name && b.name_len == a.name_len && b.txid == a.txid, "C19.result: pending query kept"),
+            Ok(v) => assert!(a.k == K::Completed && { let mut same = true; upto6(DNS_MAX_RESULT_COUNT, |j| same &= obits(v.get(j).copied()) == obits(a.addrs[j])); same } && b.k == K::Free, "C19.result: addresses only from a completed query"),
+            Err(GetQueryResultError::Pending) => assert!(a.k == K::Pending && b.k == K::Pending && same_name(&a, &b) && b.txid == a.txid, "C19.result: pending query kept"),
             Err(GetQueryResultError::Failed) => assert!(a.k == K::Failure && b.k == K::Free, "C19.result: failure reported, slot freed"),
         }
-        if j != i { let p = snap(&s, j); assert!(p.k == o.k && p.addrs == o.addrs && p.name == o.name, "C19.result: other slots untouched"); }
+        if j != i { let p = snap(&s, j); assert!(p.k == o.k && same_addrs(&p, &o) && same_name(&p, &o), "C19.result: other slots untouched"); }
     }
 }
